@@ -21,6 +21,17 @@ Unusual-but-accepted worlds (VARIANTS other than "plain"; "off-domain": purity i
   int32-types particle_type is int32 instead of the readers' int64
   noncontig   positions are non-contiguous views (every second column of a wider array) instead of C-contiguous arrays
   logtimes    three frames at t0, t0+s, t0+3s (logarithmic dumps: the non-linear branch of the time correlations)
+Degenerate worlds (DEGENERATE; the library legitimately RETURNS NaN / inf there, so repeat-equality and the file round trips
+are exercised on non-finite values; an exception is a refusal as in the other unusual worlds):
+  pinned      a subset of the particles (one of every species, >= 2) has bit-identical coordinates in all frames of the
+              wrapped and of the unwrapped trajectory: msd == 0, alpha2 = 0/0 for a condition selecting only them
+  revisit     a later frame is an exact copy of frame 0 ([f0,f0] / [f0,f1,f0] / [f0,f0,f1]): msd == 0 at some lag for ALL
+              particles (log-style displacement from frame 0, and the lag-2 entry of the linear average)
+  zerofield   the real scalar field is identically zero, the complex / vector / tensor fields are zero in frame 0 and for
+              particle 0, time steps are logarithmic for 3 frames: normalisations hit 0/0 and x/0
+Every world carries the condition masks mask_pin (the pinned set, all frames), mask_mob (its complement) and mask_gap (the
+ordinary mask with NO particle selected in one origin frame); in the non-degenerate worlds the "pinned set" moves like
+all other particles and entries do not pass mask_gap.
 In the label variants the per-species parameter tables have one row per LAMMPS type up to the largest label (KP rows),
 which is what a user analysing a dump of a sub-set of species passes; dict arguments have every label as a key.
 """
@@ -36,7 +47,9 @@ from ..gen import snapshot_from
 from ..harness import Violation
 
 ORIGINS = ("zero", "centred", "sumzero", "arbitrary")
-VARIANTS = ("plain", "lab-gap", "lab-shift", "lab-zero", "perm-types", "int32-types", "noncontig", "logtimes")
+VARIANTS = ("plain", "lab-gap", "lab-shift", "lab-zero", "perm-types", "int32-types", "noncontig", "logtimes",
+            "pinned", "revisit", "zerofield")
+DEGENERATE = ("pinned", "revisit", "zerofield")  # valid physics whose results legitimately contain NaN / inf
 
 
 def labels_for(variant, K):
@@ -302,6 +315,7 @@ class World:
             raise ValueError(f"harness: unknown world variant {variant!r}")
         self.variant = variant
         self.tolerant = variant != "plain"  # off-domain: a refusal (exception) of the library is not a violation
+        self.degenerate = variant in DEGENERATE
         self.labels = labels_for(variant, K)
         KP = self.KP = max(K, max(self.labels))  # rows of the per-species parameter tables
         self.root = root
@@ -342,19 +356,32 @@ class World:
         xu = [lo + f0 @ H]
         for _ in range(T - 1):
             xu.append(xu[-1] + rng.normal(0.0, 0.12, size=(N, d)))
+        t = list(range(1, K + 1)) + list(rng.integers(1, K + 1, size=N - K))
+        types = np.array(t, dtype=int)[rng.permutation(N)]
+        # the "pinned set": one particle of every species, at least 2, about a quarter of the system
+        rp = np.random.default_rng([int(seed), 909, N, K])
+        pin = [int(rp.choice(np.flatnonzero(types == k))) for k in range(1, K + 1)]
+        rest = [int(i) for i in rp.permutation(N) if i not in pin]
+        pin += rest[:max(0, max(2, N // 4) - len(pin))]
+        self.pin = np.array(sorted(pin))
+        if variant == "pinned":
+            for k in range(1, T):
+                xu[k][self.pin] = xu[0][self.pin]
+        if variant == "revisit":
+            pattern = {2: [[0, 0]], 3: [[0, 1, 0], [0, 0, 1]]}[T]
+            pattern = pattern[int(seed) % len(pattern)]
+            xu = [xu[i].copy() for i in pattern]
         xw = []
         Hinv = np.linalg.inv(H)
         for p in xu:
             f = (p - lo) @ Hinv
             xw.append(lo + (f - np.floor(f)) @ H)
-        t = list(range(1, K + 1)) + list(rng.integers(1, K + 1, size=N - K))
-        types = np.array(t, dtype=int)[rng.permutation(N)]
         types = np.array(self.labels, dtype=int)[types - 1]  # canonical 1..K -> the labels of this world
         t0 = int(rng.integers(0, 5000))
         self.step = int(rng.choice([50, 100, 1000]))
         if like is not None:
             t0, self.step = like.timesteps[0], like.step
-        mult = [0, 1, 3, 7] if variant == "logtimes" else list(range(T))
+        mult = [0, 1, 3, 7] if variant in ("logtimes", "zerofield") else list(range(T))
         self.timesteps = [t0 + mult[k] * self.step for k in range(T)]
         self.dt = 0.002
         # per-frame type arrays: identical unless the variant permutes them (composition fixed)
@@ -400,6 +427,17 @@ class World:
         for k in range(T):
             mask[k, rng.permutation(N)[:3]] = True
         A["mask"] = mask
+        A["mask_pin"] = np.zeros((T, N), dtype=bool)
+        A["mask_pin"][:, self.pin] = True
+        A["mask_mob"] = ~A["mask_pin"]
+        A["mask_gap"] = mask.copy()
+        self.gapframe = int(seed) % max(1, T - 1)  # an ORIGIN frame of the displacement averages
+        A["mask_gap"][self.gapframe] = False
+        if variant == "zerofield":
+            A["scalar"][...] = 0.0
+            for k in ("cplx", "vec", "tens"):
+                A[k][0] = 0
+                A[k][:, 0] = 0
         qv = rng.integers(-2, 3, size=(7, d))
         qv[0] = 0
         qv[0, 0] = 1
@@ -568,7 +606,8 @@ class World:
         self.moltypes = dict(self.moltypes)
         self.columnsids = list(self.columnsids)
 
-    _SCALARS = ("pristine", "pristine_files", "L", "H", "lo", "Lmin", "sq4_ok", "sq4_ok_cond", "angles", "dudrs")
+    _SCALARS = ("pristine", "pristine_files", "L", "H", "lo", "Lmin", "sq4_ok", "sq4_ok_cond", "angles", "dudrs", "pin",
+                "gapframe")
 
     def mutate_to(self, other):
         """Overwrite the contents of every array object (and input file) of this world IN PLACE with those of `other`
@@ -664,6 +703,13 @@ class World:
             if getattr(self, name) != want or type(getattr(self, name)) is not type(want):
                 raise Violation(f"after {after}: the {type(want).__name__} argument {name!r} was modified: {want!r:.80} -> "
                                 f"{getattr(self, name)!r:.80}")
+
+    def cond(self, kind):
+        """Condition mask [T, N] of one kind: 'mix' (ordinary), 'pin' (the pinned set), 'mob' (its complement), 'gap' (no
+        particle selected in one origin frame; only passed in the degenerate worlds, 'mix' elsewhere)."""
+        if kind == "gap" and not self.degenerate:
+            kind = "mix"
+        return self.A[{"mix": "mask", "pin": "mask_pin", "mob": "mask_mob", "gap": "mask_gap"}[kind]]
 
     def describe(self):
         return {"d": self.d, "N": self.N, "T": self.T, "K": self.K, "origin": self.origin, "cell": self.cellkind,
